@@ -43,11 +43,11 @@ LEVEL = 'exploration'
 # a flag is True the generators rewrite that trigger out of every generated
 # case (class `avoided_<trigger>` counts them) so that the search continues
 # behind the defect; the pinned replays still exercise the trigger itself.
-KNOWN_FALSY_DEFAULT_LOST = True        # default_value 0 / 0.0 / '' -> None
-KNOWN_FRACTIONAL_SECS_LOST = True      # elapsed_secs 1.5 -> 1.0
+KNOWN_FALSY_DEFAULT_LOST = False        # default_value 0 / 0.0 / '' -> None
+KNOWN_FRACTIONAL_SECS_LOST = False      # elapsed_secs 1.5 -> 1.0
 KNOWN_DEPTH3_CHILDREN_LOST = False     # fixed by e56a6b4 (pinned regression)
-KNOWN_INFEASIBLE_COMPLETION_LOST = True  # end_time ignored for INFEASIBLE
-KNOWN_NO_PREDICTION_LOST = True        # predicted_final_measurement None -> {}
+KNOWN_INFEASIBLE_COMPLETION_LOST = False  # end_time ignored for INFEASIBLE
+KNOWN_NO_PREDICTION_LOST = False        # predicted_final_measurement None -> {}
 
 
 def avoid_set():
@@ -908,7 +908,7 @@ def _req(*always, **by_trigger):
 def families(tier):
   return [
       core.Family('space', check_space, strategy=space_strategy,
-                  budget={'quick': 3000, 'thorough': 70000},
+                  budget={'quick': 3000, 'thorough': 50000},
                   shards={'quick': 8, 'thorough': 16},
                   required_classes=_req(
                       'depth>=2', 'has_default', 'default_False',
@@ -918,14 +918,14 @@ def families(tier):
                       'kind_DISCRETE', 'kind_CATEGORICAL', 'kind_BOOL',
                       falsy_default='falsy_default', depth3='depth3')),
       core.Family('metric', check_metric, strategy=metric_strategy,
-                  budget={'quick': 3000, 'thorough': 70000},
+                  budget={'quick': 3000, 'thorough': 50000},
                   shards={'quick': 4, 'thorough': 16},
                   required_classes=('falsy_safety_threshold', 'falsy_fraction',
                                     'safety_metric', 'hostile_name',
                                     'empty_metric_name')),
       core.Family('measurement', check_measurement,
                   strategy=measurement_strategy,
-                  budget={'quick': 3000, 'thorough': 70000},
+                  budget={'quick': 3000, 'thorough': 50000},
                   shards={'quick': 4, 'thorough': 16},
                   required_classes=_req(
                       'metric_0.0', 'metric_nonfinite', 'metric_std',
@@ -933,7 +933,7 @@ def families(tier):
                       fractional_secs='fractional_secs')),
       core.Family('trial', check_trial, strategy=trial_strategy,
                   setup=_setup_tz,
-                  budget={'quick': 4000, 'thorough': 90000},
+                  budget={'quick': 4000, 'thorough': 65000},
                   shards={'quick': 8, 'thorough': 16},
                   required_classes=_req(
                       'trial', 'suggestion', 'status_REQUESTED',
@@ -945,7 +945,7 @@ def families(tier):
                       fractional_secs='fractional_secs',
                       infeasible_completion='status_INFEASIBLE')),
       core.Family('study', check_study, strategy=study_strategy,
-                  budget={'quick': 3000, 'thorough': 70000},
+                  budget={'quick': 3000, 'thorough': 50000},
                   shards={'quick': 8, 'thorough': 16},
                   required_classes=_req(
                       'study_config', 'problem_statement', 'endpoint',
@@ -953,12 +953,12 @@ def families(tier):
                       'safety_metric', 'depth>=2', 'md_dur', 'hostile_name',
                       falsy_default='falsy_default')),
       core.Family('delta', check_delta, strategy=delta_strategy,
-                  budget={'quick': 3000, 'thorough': 70000},
+                  budget={'quick': 3000, 'thorough': 50000},
                   shards={'quick': 4, 'thorough': 16},
                   required_classes=('on_study', 'on_trials', 'empty_trial_entry',
                                     'hostile_name', 'md_msg')),
       core.Family('pythia', check_pythia, strategy=pythia_strategy,
-                  budget={'quick': 3000, 'thorough': 70000},
+                  budget={'quick': 3000, 'thorough': 50000},
                   shards={'quick': 8, 'thorough': 16},
                   required_classes=_req(
                       'suggest_request', 'suggest_decision',
@@ -968,7 +968,7 @@ def families(tier):
                       no_prediction='without_prediction')),
       core.Family('service', check_service, strategy=service_strategy,
                   setup=_setup_tz,
-                  budget={'quick': 400, 'thorough': 8000},
+                  budget={'quick': 400, 'thorough': 6000},
                   shards={'quick': 8, 'thorough': 16},
                   required_classes=('ram', 'sqlmem', 'status_COMPLETED',
                                     'status_INFEASIBLE', 'depth>=2')),
